@@ -107,7 +107,7 @@ def escaper_regexes(ctx: Ctx) -> tuple[object, list[tuple[str, RegexConst]]]:
 def check_hazards(ctx: Ctx) -> None:
     prog = ctx.prog
     fi, regs = escaper_regexes(ctx)
-    ctx.require("R-HAZARD", "regex constants consulted by markdown_escape_word", len(regs), 2)
+    ctx.require("R-HAZARD", "regex constants consulted by markdown_escape_word", len(regs), 1)
     if not regs:
         return
     esc = []
@@ -157,7 +157,7 @@ def check_hazards(ctx: Ctx) -> None:
                 f"({pats[src][0]!r}), and markdown_escape_word leaves that word unchanged" if witness is not None
                 else "every first word of this shape that can start a block is rewritten by the escaper"),
                where(fi, fi.node))
-    ctx.require("R-HAZARD", "hazard shape classes with a non-empty language", n_cov, 11)
+    ctx.require("R-HAZARD", "hazard shape classes with a non-empty language", n_cov, 6)
 
 
 def check_escape_site(ctx: Ctx) -> None:
@@ -241,7 +241,7 @@ def check_escape_action(ctx: Ctx) -> None:
         ok, why = _is_word_plus_backslash(v, p)
         ctx.ob("R-ESCAPE-ACTION", f"{fi.qual} :: {norm(v)}", ok,
                f"the escaper may only return its argument or the argument with a single backslash inserted ({why})", where(fi, r))
-    ctx.require("R-ESCAPE-ACTION", "returns of markdown_escape_word", n_ret, 3)
+    ctx.require("R-ESCAPE-ACTION", "returns of markdown_escape_word", n_ret, 2)
     # the guarded returns do insert the backslash
     for r in flow.cfg.returns():
         guards = direct_guards(prog, fi, r)
